@@ -1,15 +1,20 @@
 """C09 — overlap-window plugins give chunking-independent results at chunk boundaries.
 
-Model: lean/StraxModel/Model/Overlap.lean (OverlapWindowPlugin.do_compute / cache_beyond / iter, and
-Plugin.iter for one dependency); theorems: Props/C09.lean.
-Tie: REAL `strax.OverlapWindowPlugin` subclasses (count-neighbours-within-window, sum-of-neighbour-ids,
-gap-grouping, id-parity pairing, a two-kind cross count; single- and multi-output) are driven
-  (a) directly through `plugin.iter` with plain iterators of real chunks,
+Model: lean/StraxModel/Model/Overlap.lean (OverlapWindowPlugin.do_compute / cache_beyond / iter / _get_window_size, and
+Plugin.iter for one dependency); theorems: Props/C09.lean (20: `overlap_whole` for per-row and group-forming
+computations, contiguity, multi-output alignment / content / contiguity, ten-trial counterexample, pipeline interface).
+Tie: REAL `strax.OverlapWindowPlugin` subclasses (ident, count-neighbours-within-window, sum-of-neighbour-ids,
+gap grouping, id-parity pairing, a batch-revealing computation, a two-kind cross count; single- and multi-output;
+every form get_window_size() may return) are driven
+  (a) directly through `plugin.iter` with plain iterators of real chunks (small grid exhaustive, random, malformed,
+      epoch-scale times, window forms),
   (b) through `Context.get_iter` with a tiny source plugin that emits a chosen chunking (both processors),
   (c) call by call through `do_compute` with aligned inputs of two data kinds,
 and every yielded chunk ([start, end) + rows) is diffed with the compiled Lean driver.
-Oracle (independent of the model): concatenated output == one `compute` over the whole run; output
-chunks tile the run; the chunks of one multi-output result share one [start, end).
+Oracle (independent of the model), on law-abiding chunkings of disjoint rows and computations local within the DECLARED
+window (per-row; grouping / pairing with gap <= min(look-back, look-ahead)): concatenated output == one `compute` over
+the whole run; output chunks tile the run; the chunks of one multi-output result share one [start, end); no error.
+Known finding probed on every run: C09-ten-trials (component iter/ten-trials).
 """
 from __future__ import annotations
 
@@ -28,13 +33,15 @@ np = sl.np
 ID = "C09"
 LEAN_MODULES = ["StraxModel.Props.C09"]
 TRUSTED = [
-    "the harness plugins' `compute` bodies (Python) and the driver's built-in computations (Lean) are tied by the `whole` correspondence",
-    "several dependencies: the aligned calls are taken as given (property C08 / Strax.Align); do_compute is driven call by call",
+    "the harness plugins' `compute` bodies (Python) and the driver's built-in computations (Lean) are tied by the `whole` correspondence; the generator's validity predicate and Lean `streamB` by `hypothesis`",
+    "several dependencies: the aligned calls are taken as given (property C08 / Strax.Align); do_compute is driven call by call (`calls/two-kinds`), no theorem covers `runCalls`",
+    "epoch-scale times (1.7e18 ns) are tied by re-running a sample of the small-grid cases shifted (`iter/epoch`, `context/epoch`); the theorems hold for all Int times",
 ]
 ASSUMPTIONS = [
-    "rows are identified by an opaque id; the output id encodes what the computation saw (count / sum / group size)",
-    "window sizes are given in the tuple form (look-back, look-ahead) of non-negative integers",
-    "ordinary runs only (no superruns); process-pool execution not exercised (OverlapWindowPlugin.parallel = False)",
+    "rows are identified by an opaque id; the output id encodes what the computation saw (count / sum / group size / batch)",
+    "window declarations: number (int or integral float), tuple or list of two integers, and the illegal forms np.int64 / 3-tuple; non-integral float windows are not generated",
+    "ordinary runs only (no superruns); save_when = ALWAYS only (the leftover check of Plugin.iter cannot fire with one dependency); process-pool execution not exercised (OverlapWindowPlugin.parallel = False)",
+    "oracle domain = computations local within the declared window; wider gaps (incl. (min(wl,wr), 2*wr], proved to work by Lean `overlap_whole_gap`) are compared with the model only",
 ]
 
 DT = sl.DT_END
